@@ -98,12 +98,18 @@ def family(rnd, tier):
         if flags & 4 and cht in (0, 3):
             cht = 1
         for nent in (1, 2, 4):
-            sizes = [(0, 0)] + [(rnd.choice(BOUND[:9]), rnd.choice(BOUND[:9])) for _ in range(nent - 1)]
+            comp = rnd.choice((0, 2))
+            sizes = [(0, 0)]
+            for _ in range(nent - 1):
+                c = rnd.choice(BOUND[:9]); u = rnd.choice(BOUND[:9])
+                if comp == 0: u = c                 # stored uncompressed: both sizes agree
+                if c == 0: u = 0                    # no stored bytes, no data
+                sizes.append((c, u))
             kw = {}
             if flags & 2:
                 kw["opt"] = {"elems": [(rnd.randrange(5), None, bytes(rnd.getrandbits(8) for _ in range(rnd.randrange(4)))) for _ in range(rnd.randrange(3))]}
             for magic in ((b"\0ZCK1", b"\0ZHR1") if nent == 2 else (b"\0ZCK1",)):
-                b = ref.build_header(hash_type=ht, chunk_hash_type=cht, flags=flags, comp_type=rnd.choice((0, 2)),
+                b = ref.build_header(hash_type=ht, chunk_hash_type=cht, flags=flags, comp_type=comp,
                                      entries=entries_for(sizes, cht, flags, rnd), data_digest=bytes(rnd.getrandbits(8) for _ in range(ref.DIGEST_SIZE[ht])), magic=magic, **kw)
                 out.append(("plain%d" % n, b, True)); n += 1
     # sizes at every boundary, one at a time and in pairs (sums that approach / exceed 2^63 and 2^64)
@@ -111,7 +117,7 @@ def family(rnd, tier):
         for which in ("clen", "ulen"):
             sizes = [(0, 0), (v, 5) if which == "clen" else (5, v), (7, 7)]
             b = ref.build_header(entries=entries_for(sizes, 3, 0, rnd), data_digest=bytes(32))
-            out.append(("bound-%s-%d" % (which, v), b, v < 2**62))
+            out.append(("bound-%s-%d" % (which, v), b, v < 2**62 and not (which == "clen" and v == 0)))
     for a, c in ((2**62, 2**62), (2**63 - 1, 1), (2**63, 2**63), (2**64 - 1, 1), (2**64 - 1, 2**64 - 1), (2**32, 2**32), (2**31, 2**31)):
         sizes = [(0, 0), (a, 1), (c, 1), (3, 3)]
         b = ref.build_header(entries=entries_for(sizes, 3, 0, rnd), data_digest=bytes(32))
